@@ -1,0 +1,115 @@
+//! Verification hooks. Compiled only with `--cfg fclones_verif`; never part of a normal build.
+//!
+//! * re-exports of crate-private modules for in-process enumeration harnesses,
+//! * `pinned_disk_kind`: lets a harness pin the detected disk kind (`FCLONES_VERIF_DISK_KIND`),
+//! * `reorder` / `reorder_vec`: schedule seams. They first gather everything a collector would
+//!   receive, put it in a canonical order, and then apply the permutation selected by
+//!   `FCLONES_VERIF_PERM=<site>:<lehmer index>[,<site>:<index>...]` (identity when unset).
+
+use std::sync::atomic::{AtomicUsize, Ordering};
+use std::sync::mpsc::{channel, Receiver};
+
+pub mod arg {
+    pub use crate::arg::*;
+}
+pub mod pattern {
+    pub use crate::pattern::*;
+}
+pub mod regex {
+    pub use crate::regex::*;
+}
+pub mod selector {
+    pub use crate::selector::*;
+}
+pub mod semaphore {
+    pub use crate::semaphore::*;
+}
+pub mod transform {
+    pub use crate::transform::*;
+}
+
+/// Disk kind requested by the harness, if any.
+pub fn pinned_disk_kind() -> Option<sysinfo::DiskKind> {
+    match std::env::var("FCLONES_VERIF_DISK_KIND").ok()?.as_str() {
+        "ssd" => Some(sysinfo::DiskKind::SSD),
+        "hdd" => Some(sysinfo::DiskKind::HDD),
+        "unknown" => Some(sysinfo::DiskKind::Unknown(-1)),
+        other => panic!("FCLONES_VERIF_DISK_KIND: bad value {other}"),
+    }
+}
+
+static SITE_CALLS: AtomicUsize = AtomicUsize::new(0);
+
+/// Returns a site name unique per call within the process: `<name>#<n>` where n counts the
+/// calls of `numbered_site` made so far (0-based).
+pub fn numbered_site(name: &str) -> String {
+    let n = SITE_CALLS.fetch_add(1, Ordering::SeqCst);
+    format!("{name}#{n}")
+}
+
+fn requested_perm(site: &str) -> Option<u128> {
+    let spec = std::env::var("FCLONES_VERIF_PERM").ok()?;
+    for part in spec.split(',') {
+        let (s, idx) = part
+            .rsplit_once(':')
+            .unwrap_or_else(|| panic!("FCLONES_VERIF_PERM: bad entry {part}"));
+        if s == site {
+            return Some(idx.parse().expect("FCLONES_VERIF_PERM: bad index"));
+        }
+    }
+    None
+}
+
+fn log_site(site: &str, n: usize) {
+    if let Ok(path) = std::env::var("FCLONES_VERIF_SITE_LOG") {
+        use std::io::Write;
+        if let Ok(mut f) = std::fs::OpenOptions::new()
+            .create(true)
+            .append(true)
+            .open(path)
+        {
+            let _ = writeln!(f, "{site} {n}");
+        }
+    }
+}
+
+/// Puts `items` in canonical order (by `key`) and applies the requested permutation
+/// (factorial-number-system index; 0 = identity).
+pub fn reorder_vec<T, K: Ord>(mut items: Vec<T>, site: &str, key: impl Fn(&T) -> K) -> Vec<T> {
+    items.sort_by_key(|a| key(a));
+    log_site(site, items.len());
+    let mut idx = match requested_perm(site) {
+        Some(i) => i,
+        None => return items,
+    };
+    let n = items.len();
+    let mut fact: Vec<u128> = vec![1; n + 1];
+    for i in 1..=n {
+        fact[i] = fact[i - 1].saturating_mul(i as u128);
+    }
+    assert!(
+        n == 0 || idx < fact[n],
+        "FCLONES_VERIF_PERM: index {idx} out of range for {n} items at {site}"
+    );
+    let mut result = Vec::with_capacity(n);
+    for i in (0..n).rev() {
+        let pos = (idx / fact[i]) as usize;
+        idx %= fact[i];
+        result.push(items.remove(pos));
+    }
+    result
+}
+
+/// Drains `rx` until all senders are gone, then returns a receiver that yields the same items
+/// in the order selected for `site`.
+pub fn reorder<T, K: Ord>(rx: Receiver<T>, site: &str, key: impl Fn(&T) -> K) -> Receiver<T> {
+    let mut items = Vec::new();
+    while let Ok(item) = rx.recv() {
+        items.push(item);
+    }
+    let (tx, new_rx) = channel();
+    for item in reorder_vec(items, site, key) {
+        tx.send(item).unwrap();
+    }
+    new_rx
+}
